@@ -17,7 +17,9 @@ import itertools
 from vlib import boot
 
 
-def build(spec):
+def build(spec, before_late=None):
+  """before_late(p, nodes, vars, binds), if given, is called after the base
+  graph is complete and before the `late` origins are added."""
   cfg = boot.cfg()
   p = cfg.Program()
   nodes = [p.NewCFGNode("n%d" % i) for i in range(spec["n"])]
@@ -35,8 +37,16 @@ def build(spec):
         else:
           b.AddOrigin(nodes[where], [binds[i] for i in ss])
     binds.append(b)
+  if before_late is not None and spec.get("late"):
+    before_late(p, nodes, vars_, binds)
   for b, where, ss in spec.get("late") or []:
-    binds[b].AddOrigin(nodes[where], [binds[i] for i in ss])
+    if spec.get("late_api") == "AddBinding":
+      # storing the same data again: Variable.AddBinding finds the binding
+      got = vars_[spec["bindings"][b][0]].AddBinding(
+          binds[b].data, [binds[i] for i in ss], nodes[where])
+      assert got.id == binds[b].id
+    else:
+      binds[b].AddOrigin(nodes[where], [binds[i] for i in ss])
   for n, c in (spec.get("conds") or {}).items():
     nodes[int(n)].condition = binds[c]
   return p, nodes, vars_, binds
